@@ -634,6 +634,23 @@ func (r *runner) pinned() {
 		c.Count("pinned_cases", 1)
 		c.End()
 	}
+	// operator contexts of implied multiplication and of 0x literals ending in e/E (a digit string
+	// ending in "e" followed by a sign must not be read as an exponent): every binary operator on
+	// either side; the reference decides which spellings the statement defines (the rest only
+	// serve the "must not crash" clause).
+	ctxOps := []string{"+", "-", "*", "/", "^", "%", "<<", ">>", "&", "|", "=", "<", ">", "<=", ">=", "&&", "||"}
+	ctxPats := []string{"2(3)%s2", "2%s3(2)", "x(3)%s[0]", "(x)(3)%s2", "[0]%s2(x)", "0x1e%s1", "0xfe%sx", "0xE%s(2)", "3%s0x1e-1", "0x2E%s0b101+1", "x%s0xbe+[0]", "2(0x1e)%s3"}
+	for _, pat := range ctxPats {
+		for _, op := range ctxOps {
+			for _, sp := range []string{"", " "} {
+				cs := &Case{Kind: "formula", F: fmt.Sprintf(pat, sp+op+sp), Binds: denseBinds(), Pinned: "ctx"}
+				c.Begin(cs, 60*time.Second)
+				r.formula(cs, newBindSet(cs.Binds), opts{kb: true, subst: true})
+				c.Count("context_cases", 1)
+				c.End()
+			}
+		}
+	}
 	for _, f := range []string{"-", "2 + -", "(!)", "2*(3/-)", "abs(-)"} {
 		cs := &Case{Kind: "malformed", F: f, Pinned: fpTrailUnary}
 		c.Begin(cs, 60*time.Second)
